@@ -133,6 +133,9 @@ func vAllocBound(n int)          {}
 func vSteps() int                { return 0 }
 func vStepLimit(n int)           {}
 func vSymbolic() bool            { return false }
+
+// vArith(1): ask the engine to render this harness's path condition as wrapped integer arithmetic first.
+func vArith(mode int) {}
 func vTrace()                    {}
 func vFreeze(x interface{}, label string) {}
 func vFreezeGlobals(label string) {}
